@@ -427,7 +427,7 @@ func cmdCheck(args []string) int {
 		p.tier = 1
 	}
 	if *maxwall == 0 {
-		*maxwall = 400
+		*maxwall = 1200
 		if *tier == "thorough" {
 			*maxwall = 14400
 		}
